@@ -55,6 +55,10 @@ def cases(rng, tier):
     for _ in range(m):
         out.append(dict(kind="pair", seed=rng.randrange(10**9), fifo=rng.random() < 0.5,
                         match=rng.random() < 0.75, nmsg=rng.randrange(0, 4), drops=rng.random() < 0.4))
+    # slow applications that read from inside their callbacks (the clock moves during a callback)
+    for k in range(40 if tier == "quick" else 800):
+        out.append(dict(kind="pair", seed=rng.randrange(10**9), fifo=True, match=True, nmsg=rng.randrange(1, 4),
+                        drops=rng.random() < 0.2, slow=rng.choice([0.005, 0.03, 0.2]), eager=True))
     out += c18_observer.obs_cases(rng, tier)
     return out
 
@@ -67,6 +71,10 @@ def run_pair(case):
     with World(seed=case["seed"]) as W:
         a = W.add_client(delegated=True)
         b = W.add_client(delegated=False)
+        # some Deferred-mode applications are slow (each callback takes `slow` seconds of clock time) and ask for
+        # the next message from inside their verifier/message callbacks
+        b.slow = case.get("slow", 0.0)
+        b.read_in_callback = bool(case.get("eager"))
         code = "7-crossover-clockwork"
         fifo = case["fifo"]
         W.do(["open", 0]); W.do(["open", 1])
